@@ -27,10 +27,10 @@ def gen_case(rng, idx, big):
         m = rng.below(6)
         if m == 0: pass
         elif m < 4: wall += rng.choice([4, 1000, 60000]); highest = max(highest, wall)
-        elif mode == 0 and highest - wall < 2_000_000:
-            # backwards, but never so far that the clock would be more than the drift ahead (then `send` fails and the
-            # actor stops by design: `expect("Clock counter should not overflow")`)
-            wall = max(0, wall - rng.choice([4, 1000, 1_000_000]))
+        elif mode == 0:
+            # backwards by any amount - also so far that the clock is more than the drift (4100 s) ahead of the wall (an NTP step,
+            # a resumed VM): `send` refuses then, and the actor answers with the stamp following its clock (D34; it used to stop)
+            wall = max(0, wall - rng.choice([4, 1000, 1_000_000, 4_100_004, 5_000_000, 8_000_000]))
         tasks = rng.range(1, 32) if big else rng.range(1, 8)
         calls = rng.range(1, 200) if big else rng.range(1, 25)
         lines.append('clk-phase %d %d %d %d %d' % (wall, tasks, calls, rng.below(1 << 40), mode))
@@ -61,15 +61,9 @@ def gen_high(rng, idx):
         ctr = rng.choice([65000, 65520, 65524, 65525, 65526, 65527, 65529, 65530, 65533, 65534, 65535, 65535])
         off = rng.choice([0, 4, 1000, 60000, 4_000_000, DRIFT_MS - 4, DRIFT_MS])
         gets = rng.range(1, 12)
-        if off == DRIFT_MS:
-            # a clock pinned exactly AT the drift limit cannot carry on with the next instant (C09: never more than the drift
-            # ahead): when its counter values are used up before the wall clock moves 4 ms the actor stops - kept out of the cases
-            # (a remote AT the limit whose counter is exhausted is refused altogether, so it pins nothing; at least one request
-            # always follows a registration: the harness collects the actor's log after the last reply)
-            ctr = rng.choice([65000, 65520, 65535])
-            if ctr < 65535: gets = min(gets, 65535 - ctr - 1)
+        # (a clock pinned exactly AT the drift limit whose counter values are used up before the wall clock moves carries on with
+        # the next instant all the same, D34: no exclusion)
         lines.append('clk-high %d %d %d %d' % (wall, ctr, off, gets))
-        if off == DRIFT_MS: break
         if rng.chance(1, 2): wall += rng.choice([4, 1000])
     lines += ['clk-done', 'end']
     return lines
